@@ -1,10 +1,141 @@
 # Edited by hand; consumed by mkmanifest.py.
+COMMON = ("Assumptions common to all checks: mathematical integers (no overflow), memory well-typed, scheduling/termination not modelled, "
+          "extern contracts in contracts/extern/*.spec and every 'trusted'/'assume'/'assume_at_acquire' clause in the //@ files are assumed "
+          "(listed in the evidence); quick tier may discharge a VC through the committed proof cache (cache/proofs.txt, keyed by the normalised VC text; "
+          "the thorough tier re-solves everything). ")
+claim("C01",
+      "Proof, for all inputs, of the sequential specification of the in-memory collection's Get/Create/Update/Destroy inside one critical section "
+      "(success iff the spec's conditions with check precedence not-found/owner/version/phase, version+1, creation time kept, whole-view frame, failure leaves "
+      "storage and log untouched, write-back), of the error constructors' classes, the conflict-error resource invariant and the Is*Error predicates' panic-freedom.",
+      COMMON + "The step 'one critical section per operation implies linearizability' is cited, not machine-checked. inmem.State/namespaced.State routing, List, "
+      "and remote states are not under contract. Environment assumptions: caller-isolation and copy-private (assume_at_acquire).",
+      "DESIGN.md §6 C01")
+claim("C02",
+      "Proof of the ring-buffer/log representation invariant through publish (growth and wrap), of NewResourceCollection establishing it, and of the delivery "
+      "goroutines: Watch delivers exactly the next event of the watched ID with none skipped (per-iteration obligations, induction over iterations cited), "
+      "Errored only on overrun; WatchAll copies exactly writePos-pos events taken from the ring positions of log[pos..writePos) and advances pos.",
+      COMMON + "Not decided: eventual delivery (wake-ups). WatchAll goroutine verified from its main loop on (start_at_loop; bootstrap prefix not verified); "
+      "the final composition window-copy+lap-index+ring => events[i]==log[pos+i] is cited. filterInPlaceMutating trusted.",
+      "DESIGN.md §6 C02")
+claim("C03",
+      "Proof that Destroy removes a resource only if its finalizer set is empty in the same critical section (and owner matches), fails with the conflict class otherwise and leaves the state untouched.",
+      COMMON + "Teardown/TeardownAndDestroy/WatchFor/ContextWithTeardown helpers are not under contract yet; liveness ('always completes') is outside this family.",
+      "DESIGN.md §6 C03")
+claim("C08",
+      "Proof, for all declared input/output sets and targets, that the access predicates equal their specification (loops with invariants), that every delegated "
+      "call of the controller state adapter is dominated by the matching predicate (assertions at call sites), that a rejected operation performs no delegated call, "
+      "and that the input declaration accepted by rruntime UpdateInputs is stored as a private snapshot (fresh slice, same elements).",
+      COMMON + "owned.State/cache methods are used through trusted delegation-counter contracts; owner stamping in owned.State and CleanupOutputs are not under contract yet.",
+      "DESIGN.md §6 C08")
+claim("C10",
+      "Proof of the ordering obligations in the collection: a backing-store error is returned with storage and log untouched, success implies the store call succeeded "
+      "(ghost flags lastPutOK/lastDestroyOK), memory is changed and the event published only after the store call returned nil.",
+      COMMON + "bbolt's crash atomicity, loadStore and the bolt store itself are not under contract.",
+      "DESIGN.md §6 C10")
+claim("C11",
+      "No-panic sweep: every unary server handler (Get/List/Create/Update/Destroy/Teardown/TeardownAndDestroy), ConvertLabelQuery/ConvertIDQuery, mapEvent and "
+      "marshalResource are proved panic-free for every request value (nil sub-messages, empty slices, any enum value).",
+      COMMON + "Preconditions: request pointer non-nil, repeated message fields hold no nil elements (protobuf decoder). Protobuf codec functions trusted. "
+      "Error-class preservation, write-back, sticky fallback and server.Watch are not under contract yet.",
+      "DESIGN.md §6 C11")
 claim("C12",
-      "Proof of the bookmark codec contracts on the real encodeBookmark/decodeBookmark: malformed and foreign bookmarks rejected, decode is the inverse of encode for every int64 position, every accepted bookmark is well formed; panic-freedom of both for every byte string.",
-      "Assumes the extern contracts of slices.Equal/Clone and binary.BigEndian (std.spec), the cookie being a fixed 8-byte value per process, mathematical integers. Acceptance-window obligations of Watch/WatchAll are being added.",
+      "Proof that encode/decode of bookmarks are inverse and total, that Watch and WatchAll accept a bookmark exactly inside the retained window (both directions, "
+      "recent bookmarks always accepted), resume at position+1 with nothing overwritten, reject with the invalid-bookmark class, and start tails at the exact position.",
+      COMMON + "Assumes the history configuration is valid (1<=capacity, 0<=gap<=capacity).",
       "DESIGN.md §6 C12")
+claim("C19",
+      "Proof that what Create/Update put into the store is a fresh deep copy (never the caller's object), that Get returns a fresh deep copy, that the written-back "
+      "metadata equals the stored one, and that the copy-on-write containers (Finalizers.Add/Remove/Set, kv.KV.Set/Delete) never write the array or map they were "
+      "handed and put every change into a fresh one.",
+      COMMON + "DeepCopy contract assumed for resource implementations; List, watch bootstrap and the runtime cache are not under contract yet.",
+      "DESIGN.md §6 C19")
+claim("C04",
+      "Proof for the conflict-retrying UpdateWithConflicts against ghost counters maintained by the CoreState interface contracts: an error return means no "
+      "successful Update was issued, at most one successful Update per call, an owner or phase conflict returned by Update is never retried into success, "
+      "and the expected-phase check happens on the value just read before anything else (also when the change is a no-op).",
+      COMMON + "Environment as the property states (no concurrent Destroy/re-create). Modify/ModifyWithResult, Add/RemoveFinalizer, Teardown and the safe.* wrappers "
+      "are not under contract yet; the Is*Error classification functions are tied to specification functions by definitional clauses.",
+      "DESIGN.md §6 C04")
+claim("C18",
+      "Proof of the local framing logic of the compression and encryption wrappers for every byte string (marker bytes, size threshold, unknown compressor id "
+      "rejected, version byte, length guard, all index/slice expressions in bounds) and that phase text forms parse back (ParsePhase/Phase.String).",
+      COMMON + "zstd, AES-GCM and the underlying marshaler are used through assumed interface contracts; protobuf/YAML codecs, metadata<->proto mapping, version text "
+      "forms (known gap for versions >= 2^63) and decoder totality of third-party libraries are not under contract.",
+      "DESIGN.md §6 C18")
+claim("C07",
+      "Proof, per function, of the write-ordering obligations of the queue transform, cleanup and destroy controllers against a ghost trace maintained by the "
+      "owned.Writer interface contracts: the controller's finalizer is on a running input (as read, or AddFinalizer just succeeded) before Modify can create the output, "
+      "an output is destroyed only after Teardown reported it ready (or it was read tearing-down with an empty finalizer set), "
+      "the input finalizer is removed only after Destroy of that output succeeded or the output was reported not found, a cleanup controller removes its finalizer "
+      "only after its removal handler returned nil on a tearing-down input (a combined handler returns nil iff every part did), the destroy controller destroys only "
+      "tearing-down, unowned, finalizer-free resources. Known finding F9 (known_findings.txt): the finalizer-before-output obligation fails for tearing-down inputs "
+      "reconciled as running under the ignore-teardown options; replayed on the real code, reported as KNOWN-FINDING.",
+      COMMON + "Per-reconcile obligations; the induction over the history of reconciles (and 'consequently the input never disappears first') is cited, and the store's own "
+      "refusal to destroy with finalizers is C03. Not under contract: transform.Controller (range-over-func iterators), cleanup.RemoveOutputs/HasNoOutputs handlers. Writer/Reader/handler implementations are "
+      "represented by their interface contracts.",
+      "DESIGN.md §6 C07")
+claim("C20",
+      "Proof that every key retrieval path (GetMasterKey, AddKeySlot, DeleteKeySlot through getKey) recomputes the HMAC over all slots and compares it (ghost "
+      "counters written by hashSlots/verifyKeySlots; the comparison covers the full length of both) before returning a key, fails without returning a key when the comparison fails or the slot is absent, "
+      "is read-only on the storage, and that no step dereferences a nil slot of an altered serialized form; and of the slot-set rules: the last slot is never "
+      "deleted, an existing slot is never overwritten, every other slot is kept by add/delete, a second initialisation is refused, and the stored tag is the "
+      "digest recomputed after the slot change.",
+      COMMON + "PGP encryption, HMAC-SHA256, constant-time compare and the generated protobuf getters are used through assumed contracts, so 'recovers the same master "
+      "key' and 'any alteration is detected' are proved only up to those contracts (the digest is an uninterpreted result of the hash interface); that the HMAC "
+      "binds slot ids unambiguously (concatenation without separators) is not claimed; marshal/unmarshal round trip is not under contract.",
+      "DESIGN.md §6 C20")
+claim("C15",
+      "Proof for the per-kind cache handler (get, list, put, remove, append, len, contextWithTeardown): every element of the cached list is a non-nil resource with "
+      "metadata after every operation (monitor invariant under the handler's mutex), every index derived from a binary search is in bounds, get returns a resource "
+      "with the requested ID that is a fresh deep copy, list returns only items that went through the copying map step, a teardown-bound context is cancelled on the "
+      "spot only when the resource is absent or already tearing down.",
+      COMMON + "Only the contract-decidable, per-call part of C15 is claimed. Not decided: blocking until bootstrapped, never-going-backwards, coherence with "
+      "notifications and equality with uncached reads at quiescence (history/liveness statements), ResourceCache dispatch, processEvents. The results of "
+      "slices.BinarySearchFunc are assumptions at each call site and the sortedness of the list they rely on is NOT proved (the shifted-array obligations of "
+      "put/remove did not discharge reliably and were left out of the claim rather than kept as flaky alarms); xslices.Map applying DeepCopy is an assumption.",
+      "DESIGN.md §6 C15")
+claim("C17",
+      "Proof for the dependency database: AddControllerOutput keeps the monitor invariant 'no type is claimed both exclusively and shared, shared lists are non-empty', "
+      "refuses an exclusive claim on a type that has any claim and any claim on an exclusively held type, records an accepted exclusive claim for exactly that "
+      "controller, changes no other type, and changes nothing when it refuses; Add/DeleteControllerInput change only the named controller's list and nothing when they "
+      "refuse, with all index arithmetic of the +/-1 neighbourhood scan in bounds; GetControllerInputs returns a copy; GetDependentControllers requires an ID. "
+      "rruntime/qruntime NewAdapter carry 'a rejected registration performed no database change' over the ghost counter of accepted changes: this obligation FAILS "
+      "and is the known finding F4 (replayed on the real code).",
+      COMMON + "Not under contract: that a controller's input list is sorted and free of conflicting keys (the neighbourhood scan relies on it), Export, "
+      "GetControllerOutputs, notification routing in runtime.go, UpdateInputs' merge result. The results of slices.BinarySearch(Func) are assumed only to be in range.",
+      "DESIGN.md §6 C17")
+claim("C13",
+      "Proof for the client-side watch adapter: its receive closure re-establishes a watch only when retries are enabled and a bookmark has been seen, always with "
+      "StartFromBookmark equal to the remembered bookmark and with BootstrapContents, BootstrapBookmark and TailEvents cleared (call-site assertions at the Watch "
+      "call inside the retry loop, loop invariant over the retry state), returns a message only when one was received; the delivery loop keeps the remembered "
+      "bookmark equal to the bookmark of the last event converted (loop invariant) and is panic-free for every decoded message.",
+      COMMON + "Environment assumptions (listed as assume_result clauses): a context whose Done channel fired reports a non-nil error; decoded WatchResponse messages "
+      "contain no nil event entries; gRPC stream and client stub contracts. Not decided: that the server's resume semantics (C12) compose with this into 'no gap, "
+      "no duplicate' end to end, the discarded first response after a resume, exhaustion of the backoff, mapping of FailedPrecondition to the invalid-bookmark class "
+      "(exercised by the code but not stated as a postcondition), server.Watch.",
+      "DESIGN.md §6 C13")
+claim("C09",
+      "Proof, for every element/key type (the code is verified generically over its type parameters), of the two containers the reconcile queue is built on: "
+      "SliceSet (the in-flight set) never holds an item twice, Add succeeds iff the item was absent and keeps all other items, Remove succeeds iff the item was "
+      "present and leaves it absent; PriorityQueue (the pending queue) never holds a key twice - Push replaces or keeps the queued entry of a key, reports "
+      "'added' iff the key was new, changes the length accordingly, Pop removes exactly one entry - and Peek/Len are panic-free.",
+      COMMON + "Only the containers are under contract. Not decided here: the event loop of queue.Run that combines them (per-item exclusion across "
+      "Put/Get/Release, coalescing to the most recent value, the reported length), ordering by release time inside PriorityQueue (the results of "
+      "slices.IndexFunc/BinarySearchFunc for the closures used are assumptions at the call sites), timers and backoff (time).",
+      "DESIGN.md §6 C09")
+claim("C14",
+      "Proof of the selector semantics as one function: Labels.Matches is pinned down operator by operator for every label map and term (existence, equality, "
+      "set membership, lexical < and <=, inversion, missing labels never satisfy a comparison and satisfy an inverted non-comparison, empty value lists), "
+      "LabelQuery.Matches is exactly the AND of its terms and LabelQueries.Matches exactly the OR of its queries (loops with invariants; empty query and empty "
+      "list match everything); the server-side translation of label queries applies inversion per term (C11 assertions).",
+      COMMON + "Numeric comparison with unit suffixes (compare.GetNumbers) is string parsing and trusted; IDQuery.Matches (regular expressions) trusted. Not under "
+      "contract: that List and the filtered watch apply this function to every resource and rewrite events when the match status changes (collection.List sorts "
+      "its result with sort.Slice, the watch filter closure is trusted), the runtime cache list, the client-side query translation. An operator outside the "
+      "enumeration makes Matches panic by design (may_panic).",
+      "DESIGN.md §6 C14")
 NOT_BUILT = "not built yet in this round (engine in progress); see DESIGN.md §6 for the planned contracts"
-for p in ["C01","C02","C03","C04","C05","C07","C08","C09","C10","C11","C13","C14","C15","C17","C18","C19","C20"]:
-    na(p, NOT_BUILT)
+na("C05", "'every committed change eventually makes the controller reconcile' is a liveness statement over schedules and channel deliveries; its safety skeleton "
+   "(a non-blocking send on a capacity-1 channel keeps one wake-up pending; the dedup map bounced between two goroutines) is about channel semantics and goroutine "
+   "interleavings, which function contracts over a sequential body do not express. No partial claim is made.")
 na("C06", "convergence at quiescence is a liveness/fixpoint property of the whole system; no function contract expresses 'eventually'. Its safety skeleton is C07.")
 na("C16", "restart/backoff timing, isolation between goroutines and leak-free shutdown are statements about time and goroutine life-cycles (and recover), not pre/postconditions of a call.")
